@@ -313,6 +313,10 @@ def gen_ops(rng, tier, focus, ref, tgt, info, n_res):
             ops.append({"op": "mutate", "what": what, "how": rng.choice(["move", "rotate", "overwrite"]),
                         "d": gen.rvec(rng, 3.0), "R": gen.random_rotation(rng).tolist(), "pick": rng.randrange(1000),
                         "seed": rng.randrange(2 ** 31)})
+    if n < 3 and rng.random() < 0.35:
+        ops.append({"op": "mutate", "what": "construction_ref", "how": rng.choice(["move", "rotate"]),
+                    "d": gen.rvec(rng, 3.0), "R": gen.random_rotation(rng).tolist(), "pick": 0, "seed": rng.randrange(2 ** 31)})
+        ops.append({"op": "call", "conf": "construction_object"})
     for step in range(nops):
         if rebond_at is not None and step == rebond_at:
             # the topology is EDITED (a bond is added between two atoms that already answered neighbour queries for the map
@@ -646,7 +650,16 @@ def _execute(trace, ctx, ref_spec, tgt_spec, scale, n, m, ref_pos0, tgt_pos0):
         return ExchangeMap(r, t, scale)
 
     ref_live = ref_instance(ref_spec["positions"])
-    tgt_live = gen.make_molecule(tgt_spec)
+    if trace["np_seed"] % 7 == 5:
+        # the target was placed by assigning a float32 array (values exactly representable in both widths)
+        t32 = np.asarray(tgt_spec["positions"], dtype=np.float32)
+        tgt_spec = dict(tgt_spec, positions=t32.astype(np.float64).tolist())
+        tgt_pos0 = np.array(tgt_spec["positions"], dtype=float)
+        tgt_live = gen.make_molecule(tgt_spec)
+        tgt_live.atoms_positions = t32.copy()
+        ctx.probe("target_positions_float32")
+    else:
+        tgt_live = gen.make_molecule(tgt_spec)
     scale_arg = scale
     if trace["np_seed"] % 3 == 0:
         # the same number in another form: a Python int for whole numbers, a numpy scalar otherwise
@@ -731,6 +744,7 @@ def _execute(trace, ctx, ref_spec, tgt_spec, scale, n, m, ref_pos0, tgt_pos0):
     snap_ref_live = snap(ref_live)
     snap_tgt_live = snap(tgt_live)
     pending_reject = False
+    construction_rigid = [True]      # the construction reference has only been moved / rotated so far (not overwritten)
     rejected_objects = []
     collinear_constr = (not small) and any(model.anchor_sin(a) < 1e-9 for a in model.anchors)
     if collinear_constr:
@@ -852,6 +866,9 @@ def _execute(trace, ctx, ref_spec, tgt_spec, scale, n, m, ref_pos0, tgt_pos0):
         if op["conf"] == "construction":
             check_c01(pos, rpos)
         if op["conf"] in ("rigid", "other_instance") or (op["conf"] == "construction"):
+            check_c02(op, pos, rpos, coord_scale)
+        if op["conf"] == "construction_object" and small and construction_rigid[0]:
+            # the construction object itself, wherever the harness' rigid mutations have left it
             check_c02(op, pos, rpos, coord_scale)
         if op["conf"] in ("deformed", "one_moved", "rigid", "other_instance", "construction", "construction_object"):
             check_c03_shape(pos, rpos)
@@ -1112,6 +1129,8 @@ def _execute(trace, ctx, ref_spec, tgt_spec, scale, n, m, ref_pos0, tgt_pos0):
             elif op["how"] == "rotate":
                 target.rotate(np.array(op["R"]))
             else:
+                if target is ref_live:
+                    construction_rigid[0] = False
                 target.atoms_positions = np.array([[mr.uniform(-5, 5) for _ in range(3)] for _ in range(len(target))])
             ctx.op("mutate:" + op["what"], op["how"])
             ctx.fault("mutation:" + op["what"])
